@@ -27,7 +27,9 @@ def nearestDownSource (ch : Chain) (p : Nat) (t : Ty) : Option Nat :=
 
 /-- the included provider nearest after position `p` that returns type `t` upward -/
 def nearestUpSource (ch : Chain) (p : Nat) (t : Ty) : Option Nat :=
-  ((ch.filter fun f => f.inc && f.pos > p && f.c.ret.contains t).head?).map (·.pos)
+  -- a fallible injector only returns (its error) when it stops the chain; when it succeeds the
+  -- returners below it are what the receiver sees, so it does not hide them
+  ((ch.filter fun f => f.inc && f.pos > p && f.c.ret.contains t && f.c.cls != .fallibleInjectorFunc).head?).map (·.pos)
 
 def invokePos (ch : Chain) : Nat :=
   ((ch.find? fun f => f.c.cls == .invokeFunc).map (·.pos)).getD ch.length
